@@ -232,6 +232,16 @@ func (e *env) restoreTo(dst string) (ok bool, errs, fp, integ string) {
 	return true, "none", fp, integ
 }
 
+// safeDecode: the ltx decoder panics on some truncated files (finding X1); for the inspector that is "does not decode".
+func safeDecode(r io.Reader) (o core.LtxObs) {
+	defer func() {
+		if p := recover(); p != nil {
+			o.Err = fmt.Sprintf("panic:%v", p)
+		}
+	}()
+	return core.DecodeLTX(r, 0, 0, core.NewDict())
+}
+
 func (e *env) inspect(redoRestore bool) inspectRep {
 	rep := inspectRep{Mode: "inspect", Bad: []ltxBad{}, OutInteg: "none", RestErr: "none", RestInteg: "none", SrcInteg: "none", ReRestore: "none"}
 	ps := e.r
@@ -259,7 +269,7 @@ func (e *env) inspect(redoRestore bool) inspectRep {
 				rep.Bad = append(rep.Bad, ltxBad{p[len(e.fs)+1:], "open:" + err.Error()})
 				return nil
 			}
-			o := core.DecodeLTX(fh, 0, 0, core.NewDict())
+			o := safeDecode(fh)
 			fh.Close()
 			if o.Err == "none" && (o.Min != int(mn) || o.Max != int(mx)) {
 				o.Err = fmt.Sprintf("header %d-%d under name %d-%d", o.Min, o.Max, mn, mx)
